@@ -199,6 +199,13 @@ def _geometry(acc, lens):
         cmp(acc, "unravel_multi_index-vector", ("T", (A(rr, shape=(size,)), A(cc, shape=(size,)))),
             observe(lambda: tuple(np.asarray(x) for x in mk().unravel_multi_index(np.arange(size)))))
         cmp(acc, "index_array", A(rr, shape=(size,)), observe(lambda: np.asarray(mk().index_array())))
+        # the maps are index maps: whatever integer type the caller's (row, column) arrays have, the flat positions must be usable as
+        # indices into the flat buffer (and select the same cells)
+        for dtn in ("uint64", "int32", "uint8"):
+            def as_index():
+                flat_pos = mk().ravel_multi_index((np.array(rr, dtype=dtn), np.array(cc, dtype=dtn)))
+                return np.arange(100, 100 + size)[flat_pos]
+            cmp(acc, f"ravel_multi_index-vector({dtn}) used as an index", A(list(range(100, 100 + size)), shape=(size,)), observe(as_index))
     # to_dict / from_dict, both stored forms
     cmp(acc, "to_dict/from_dict", ("T", (A(starts, shape=(n,)), A(lens, shape=(n,)))),
         observe(lambda: (lambda s: (np.asarray(s.starts), np.asarray(s.lengths)))(RaggedShape.from_dict(mk().to_dict()))))
